@@ -89,9 +89,10 @@ class Track(object):
 
 
 def fm_track(cyl, head, sectors, order=None, gap1=16, gap3=21, sync=6, gap2=11, total_bytes=None,
-             index_mark=False, dam=0xFB, size_code=1, gap4_min=0, deleted=(), id_override=None):
+             index_mark=False, dam=0xFB, size_code=1, gap4_min=0, deleted=(), id_override=None, orphans=None):
     """sectors: dict record -> bytes.  Returns Track.  id_override: record -> (c, h, r, n) written in the ID
-    field instead of the natural address (CRC valid)."""
+    field instead of the natural address (CRC valid).  orphans: record -> record number of a stale sector ID
+    (good CRC, no data record) written before that record's own ID and further from it than the controller's ID-to-data-mark window (FM 30, MFM 43 bytes), so that the next mark after the stale ID cannot be taken for its record."""
     t = Track()
     if index_mark:
         t.fm([0xFF] * gap1)
@@ -101,6 +102,13 @@ def fm_track(cyl, head, sectors, order=None, gap1=16, gap3=21, sync=6, gap2=11, 
     order = order if order is not None else sorted(sectors)
     for r in order:
         p = {}
+        if orphans and r in orphans:
+            t.fm([0] * sync)
+            t.c += FM_IDAM
+            oh = [cyl, head, orphans[r], size_code]
+            c = crc16_fast([0xFE] + oh)
+            t.fm(oh + [c >> 8, c & 0xFF])
+            t.fm([0xFF] * max(gap3, 31))
         t.fm([0] * sync)
         p['idam'] = len(t.c)
         t.c += FM_IDAM
@@ -131,7 +139,7 @@ def fm_track(cyl, head, sectors, order=None, gap1=16, gap3=21, sync=6, gap2=11, 
 
 
 def mfm_track(cyl, head, sectors, order=None, gap1=32, gap3=54, sync=12, gap2=22, total_bytes=None,
-              index_mark=False, dam=0xFB, size_code=1, gap4_min=0, deleted=(), id_override=None):
+              index_mark=False, dam=0xFB, size_code=1, gap4_min=0, deleted=(), id_override=None, orphans=None):
     t = Track()
     t.mfm([0x4E] * gap1)
     if index_mark:
@@ -142,6 +150,13 @@ def mfm_track(cyl, head, sectors, order=None, gap1=32, gap3=54, sync=12, gap2=22
     order = order if order is not None else sorted(sectors)
     for r in order:
         p = {}
+        if orphans and r in orphans:
+            t.mfm([0] * sync)
+            t.c += MFM_A1 * 3
+            oh = [0xFE, cyl, head, orphans[r], size_code]
+            c = crc16_fast([0xA1] * 3 + oh)
+            t.mfm(oh + [c >> 8, c & 0xFF])
+            t.mfm([0x4E] * max(gap3, 44))
         t.mfm([0] * sync)
         p['idam'] = len(t.c)
         t.c += MFM_A1 * 3
